@@ -7,6 +7,7 @@ AST extraction (the working tree's source text, not the imported module) of
   * `IpmbHeaderRsp.decode`           -> `rspHeaderFields : List (Fld × Expr)`, `rspIgnored`
   * `rx_filter`                      -> `rxChecks : List Check`, `rxDefaults : Flags`
   * call sites of `rx_filter` in pyipmi/interfaces/*.py -> which keyword flags transports pass
+  * loop test of `decode_bridged_message` (+ `is_send_message_response`) -> `recogNetfn`, `recogVerify`
 
 and, by importing the package, the constants of the Send Message command that the bridging
 model (C09) uses: netfn, command id, and the bit positions of `channel.number` /
@@ -337,6 +338,115 @@ def t_rx_filter(fn):
     return checks, defaults
 
 
+def _is_const_attr(node, name):
+    """`constants.<name>`"""
+    return isinstance(node, ast.Attribute) and node.attr == name and isinstance(node.value, ast.Name) \
+        and node.value.id == 'constants'
+
+
+def _byte5_is_send_message(node, data_expr):
+    """`<data>[5] == constants.CMDID_SEND_MESSAGE` / `!=`; -> 'eq' | 'ne' | None.  `data_expr(n)` says whether
+    n is the byte array looked at"""
+    if not (isinstance(node, ast.Compare) and len(node.ops) == 1 and len(node.comparators) == 1):
+        return None
+    l, r = node.left, node.comparators[0]
+    if not (isinstance(l, ast.Subscript) and data_expr(l.value) and _const_nat(l.slice) == 5
+            and _is_const_attr(r, 'CMDID_SEND_MESSAGE')):
+        return None
+    return 'eq' if isinstance(node.ops[0], ast.Eq) else 'ne' if isinstance(node.ops[0], ast.NotEq) else None
+
+
+def _netfn_is_app_rsp(node, data):
+    """`data[1] >> 2 != constants.NETFN_APP + 1`"""
+    if not (isinstance(node, ast.Compare) and len(node.ops) == 1 and isinstance(node.ops[0], ast.NotEq)):
+        return False
+    l, r = node.left, node.comparators[0]
+    ok = isinstance(l, ast.BinOp) and isinstance(l.op, ast.RShift) and _const_nat(l.right) == 2 \
+        and isinstance(l.left, ast.Subscript) and isinstance(l.left.value, ast.Name) and l.left.value.id == data \
+        and _const_nat(l.left.slice) == 1
+    ok = ok and isinstance(r, ast.BinOp) and isinstance(r.op, ast.Add) and _is_const_attr(r.left, 'NETFN_APP') \
+        and _const_nat(r.right) == 1
+    return ok
+
+
+def _returns(st, value):
+    return isinstance(st, ast.Return) and isinstance(st.value, ast.Constant) and st.value.value is value
+
+
+def t_recognition(funcs):
+    """How a Send Message response is recognised by `decode_bridged_message` (C09, C03):
+
+      as shipped   while array('B', rx_data)[5] == constants.CMDID_SEND_MESSAGE:          -> (False, False)
+      repaired     while is_send_message_response(rx_data, verify):  with
+                   def is_send_message_response(rx_data, verify=False):
+                       data = array('B', rx_data)
+                       if data[1] >> 2 != constants.NETFN_APP + 1 or data[5] != constants.CMDID_SEND_MESSAGE:
+                           return False
+                       if verify and (checksum(data[0:3]) != 0 or checksum(data[3:]) != 0):
+                           return False
+                       return True                                                        -> (True, True)
+
+    -> (netFn compared, both checksums verified on request).  Any other shape leaves the grammar."""
+    fn = funcs.get('decode_bridged_message')
+    if fn is None:
+        _bad('function decode_bridged_message missing')
+    names, dfl = _args(fn)
+    loops = [st for st in _body(fn) if isinstance(st, ast.While)]
+    if len(loops) != 1 or loops[0].orelse:
+        _bad('decode_bridged_message: not exactly one while loop', fn)
+    test = loops[0].test
+    if names == ['rx_data'] and not dfl:
+        if _byte5_is_send_message(test, lambda n: _array_b(n, 'rx_data')) == 'eq':
+            return False, False
+        _bad('decode_bridged_message: loop test', test)
+    ok = names == ['rx_data', 'verify'] and len(dfl) == 1 and isinstance(dfl[0], ast.Constant) and dfl[0].value is False
+    ok = ok and _is_call(test, 'is_send_message_response', 2) and not test.keywords \
+        and all(isinstance(a, ast.Name) for a in test.args) and [a.id for a in test.args] == ['rx_data', 'verify']
+    if not ok:
+        _bad('decode_bridged_message: signature / loop test', fn)
+    rec = funcs.get('is_send_message_response')
+    if rec is None:
+        _bad('function is_send_message_response missing')
+    rn, rd = _args(rec)
+    if not (rn == ['rx_data', 'verify'] and len(rd) == 1 and isinstance(rd[0], ast.Constant) and rd[0].value is False):
+        _bad('is_send_message_response signature', rec)
+    b = _body(rec)
+    if len(b) != 4:
+        _bad('is_send_message_response body has %d statements' % len(b), rec)
+    s0, s1, s2, s3 = b
+    if not (isinstance(s0, ast.Assign) and len(s0.targets) == 1 and isinstance(s0.targets[0], ast.Name)
+            and _array_b(s0.value, 'rx_data')):
+        _bad("is_send_message_response: data = array('B', rx_data)", s0)
+    data = s0.targets[0].id
+    ok = isinstance(s1, ast.If) and not s1.orelse and len(s1.body) == 1 and _returns(s1.body[0], False) \
+        and isinstance(s1.test, ast.BoolOp) and isinstance(s1.test.op, ast.Or) and len(s1.test.values) == 2 \
+        and _netfn_is_app_rsp(s1.test.values[0], data) \
+        and _byte5_is_send_message(s1.test.values[1], lambda n: isinstance(n, ast.Name) and n.id == data) == 'ne'
+    if not ok:
+        _bad('is_send_message_response: netFn / command test', s1)
+    ok = isinstance(s2, ast.If) and not s2.orelse and len(s2.body) == 1 and _returns(s2.body[0], False) \
+        and isinstance(s2.test, ast.BoolOp) and isinstance(s2.test.op, ast.And) and len(s2.test.values) == 2 \
+        and isinstance(s2.test.values[0], ast.Name) and s2.test.values[0].id == 'verify'
+    if ok:
+        o = s2.test.values[1]
+        ok = isinstance(o, ast.BoolOp) and isinstance(o.op, ast.Or) and len(o.values) == 2
+    if ok:
+        cx = Ctx(data=data)
+        sums = []
+        for c in o.values:
+            if not (isinstance(c, ast.Compare) and len(c.ops) == 1 and isinstance(c.ops[0], ast.NotEq)
+                    and _const_nat(c.comparators[0]) == 0):
+                ok = False
+                break
+            sums.append(term(c.left, cx))
+        ok = ok and sums == ['(.cksumSlice 0 (some 3))', '(.cksumSlice 3 none)']
+    if not ok:
+        _bad('is_send_message_response: checksum test', s2)
+    if not _returns(s3, True):
+        _bad('is_send_message_response: final return', s3)
+    return True, True
+
+
 def t_call_sites():
     """Every call of rx_filter in pyipmi/interfaces: which keyword flags are passed.  The
     property makes the responder-LUN comparison mandatory: a transport that passes `rs_lun=`
@@ -426,7 +536,7 @@ def extract():
             raise TieBroken('%s:%d passes rs_lun= to rx_filter (the responder-LUN check is mandatory)' % (fname, line))
     return {'cksum': (init_, step, ret), 'req_bytes': req_bytes, 'rsp_fields': rsp_fields,
             'rsp_ignored': rsp_ignored, 'checks': checks, 'defaults': defaults, 'sites': sites,
-            'send': t_send_message()}
+            'send': t_send_message(), 'recognition': t_recognition(funcs)}
 
 
 def render(x):
@@ -467,6 +577,12 @@ def render(x):
     L.append('/-- `constants.CMDID_SEND_MESSAGE`, `constants.NETFN_APP` (used by decode_bridged_message) -/')
     L.append('def constSendMsgCmd : Nat := %d' % s['const_cmd'])
     L.append('def constNetfnApp : Nat := %d' % s['const_netfn'])
+    rn, rv = x['recognition']
+    L.append('/-- how `decode_bridged_message` recognises a Send Message response (AST of its loop test and of\n'
+             '`is_send_message_response`): the netFn (App + 1) is compared as well as the command id / both checksums\n'
+             'are verified when the caller asks for it (`verify=True`, as Rmcp._send_and_receive does) -/')
+    L.append('def recogNetfn : Bool := %s' % ('true' if rn else 'false'))
+    L.append('def recogVerify : Bool := %s' % ('true' if rv else 'false'))
     L.append('/-- (offset, width) of `channel.number` and `channel.tracking`; OR of the other bits\' defaults -/')
     L.append('def chanNumber : Nat × Nat := (%d, %d)' % s['number'])
     L.append('def chanTracking : Nat × Nat := (%d, %d)' % s['tracking'])
